@@ -2,7 +2,7 @@
 EXTENDS AuthZ, Json, TLC
 CONSTANT Tier
 
-Words  == {"a", "b", PLUS}
+Words  == IF Tier = "quick" THEN {"a", "b", PLUS} ELSE {"a", "b", "c", PLUS}
 Depth  == IF Tier = "quick" THEN 3 ELSE 4
 Seqs(k) == UNION { [1..n -> Words] : n \in 1..k }
 Targets == { Chan(w, h) : w \in Seqs(Depth - (IF Tier = "quick" THEN 0 ELSE 1)), h \in BOOLEAN } \cup { Chan(<<>>, TRUE) }
